@@ -29,11 +29,25 @@ type c20File struct {
 	Name string `json:"name"` // relative path
 	Src  string `json:"src"`
 	Edit bool   `json:"edit"`
+	// Kind: what an edited file undergoes ("" = grow)
+	//   grow         a new declaration at the end: the print is longer than the file on disk
+	//   remove-decl  the last declaration that is not an import declaration goes: shorter; imports
+	//                only it used are dropped by the import management
+	//   remove-all   all declarations but the import declarations go: every import is unused
+	//   rename-same  the first declared name gets another first letter: the same length
+	Kind string `json:"kind,omitempty"`
 }
 
 type c20Input struct {
 	Files    []c20File `json:"files"`
 	FailPath string    `json:"fail_path,omitempty"` // the resolver fails for this package path
+	// API: "" = Package.SaveWithResolver; "Save" = Package.Save (its go/packages resolver needs the go
+	// tool: used when the separately made prints asked their resolver for no package name at all,
+	// SaveWithResolver otherwise)
+	API string `json:"api,omitempty"`
+	// Again: after the first save every edited file is edited once more in this way and the package
+	// is saved a second time (not with FailPath)
+	Again string `json:"again,omitempty"`
 }
 
 type failPathResolver struct {
@@ -61,6 +75,63 @@ func snapshotDir(root string) map[string]string {
 	return m
 }
 
+// c20Edit edits a decorated file in place
+func c20Edit(df *dst.File, kind string) {
+	isImport := func(d dst.Decl) bool {
+		gd, ok := d.(*dst.GenDecl)
+		return ok && gd.Tok == token.IMPORT
+	}
+	switch kind {
+	case "", "grow":
+		// a new declaration at the end
+		df.Decls = append(df.Decls, &dst.GenDecl{Tok: token.VAR, Specs: []dst.Spec{&dst.ValueSpec{Names: []*dst.Ident{dst.NewIdent("Added")}, Type: dst.NewIdent("int")}},
+			Decs: dst.GenDeclDecorations{NodeDecs: dst.NodeDecs{Before: dst.EmptyLine}}})
+	case "remove-decl":
+		for i := len(df.Decls) - 1; i >= 0; i-- {
+			if !isImport(df.Decls[i]) {
+				df.Decls = append(df.Decls[:i:i], df.Decls[i+1:]...)
+				return
+			}
+		}
+	case "remove-all":
+		var keep []dst.Decl
+		for _, d := range df.Decls {
+			if isImport(d) {
+				keep = append(keep, d)
+			}
+		}
+		df.Decls = keep
+	case "rename-same":
+		other := func(id *dst.Ident) {
+			if id.Name != "" && id.Name != "_" {
+				first := "Z"
+				if id.Name[0] == 'Z' {
+					first = "Y"
+				}
+				id.Name = first + id.Name[1:]
+			}
+		}
+		for _, d := range df.Decls {
+			switch d := d.(type) {
+			case *dst.FuncDecl:
+				other(d.Name)
+				return
+			case *dst.GenDecl:
+				if isImport(d) || len(d.Specs) == 0 {
+					continue
+				}
+				switch sp := d.Specs[0].(type) {
+				case *dst.ValueSpec:
+					other(sp.Names[0])
+				case *dst.TypeSpec:
+					other(sp.Name)
+				}
+				return
+			}
+		}
+	}
+}
+
 func c20Check(c *Ctx, in c20Input) (key, what string) {
 	root, err := os.MkdirTemp(filepath.Join(c.Verif, ".build"), "c20-")
 	if err != nil {
@@ -72,24 +143,47 @@ func c20Check(c *Ctx, in c20Input) (key, what string) {
 		os.MkdirAll(filepath.Dir(p), 0755)
 		os.WriteFile(p, []byte(f.Src), 0644)
 	}
-	before := snapshotDir(root)
 	fset := token.NewFileSet()
 	dec := decorator.NewDecoratorWithImports(fset, "example.com/pkg", goastNew())
 	pkg := &decorator.Package{Package: &packages.Package{PkgPath: "example.com/pkg"}, Dir: root, Decorator: dec}
-	expected := map[string]string{}
 	for _, f := range in.Files {
 		p := filepath.Join(root, f.Name)
 		df, err := dec.ParseFile(p, nil, parser.ParseComments)
 		if err != nil {
 			return "", ""
 		}
-		if f.Edit {
-			// an edit: a new declaration at the end
-			df.Decls = append(df.Decls, &dst.GenDecl{Tok: token.VAR, Specs: []dst.Spec{&dst.ValueSpec{Names: []*dst.Ident{dst.NewIdent("Added")}, Type: dst.NewIdent("int")}},
-				Decs: dst.GenDeclDecorations{NodeDecs: dst.NodeDecs{Before: dst.EmptyLine}}})
-		}
 		pkg.Syntax = append(pkg.Syntax, df)
 	}
+	rounds := []bool{false}
+	if in.Again != "" && in.FailPath == "" {
+		rounds = append(rounds, true)
+	}
+	for _, again := range rounds {
+		for i, f := range in.Files {
+			if f.Edit {
+				kind := f.Kind
+				if again {
+					kind = in.Again
+				}
+				c20Edit(pkg.Syntax[i], kind)
+			}
+		}
+		if key, what := c20SaveRound(in, root, pkg); key != "" {
+			if again {
+				what = "second save (edited " + in.Again + " after the first): " + what
+			}
+			return key, what
+		}
+	}
+	return "", ""
+}
+
+var c20Stats = map[string]int{}
+
+// c20SaveRound: one save of the package as it stands, judged against the directory as it stands
+func c20SaveRound(in c20Input, root string, pkg *decorator.Package) (key, what string) {
+	before := snapshotDir(root)
+	expected := map[string]string{}
 	names := map[string]string{}
 	for _, f := range in.Files {
 		for k, v := range accurateNames(f.Src) {
@@ -98,12 +192,15 @@ func c20Check(c *Ctx, in c20Input) (key, what string) {
 	}
 	var rr resolver.RestorerResolver = &mapResolver{m: names}
 	// what each file should contain: the import-managed print (computed on clones, separately)
+	asked := 0 // package names these prints asked their resolvers for
 	for i, f := range in.Files {
 		cl := dst.Clone(pkg.Syntax[i]).(*dst.File)
 		var buf bytes.Buffer
-		if err := decorator.NewRestorerWithImports("example.com/pkg", &mapResolver{m: names}).Fprint(&buf, cl); err == nil {
+		mr := &mapResolver{m: names}
+		if err := decorator.NewRestorerWithImports("example.com/pkg", mr).Fprint(&buf, cl); err == nil {
 			expected[f.Name] = buf.String()
 		}
+		asked += len(mr.calls)
 	}
 	failIdx := -1
 	if in.FailPath != "" {
@@ -113,6 +210,19 @@ func c20Check(c *Ctx, in c20Input) (key, what string) {
 			pf, perr := parser.ParseFile(token.NewFileSet(), "", f.Src, parser.ImportsOnly)
 			if perr != nil {
 				continue
+			}
+			if f.Edit && f.Kind != "" && f.Kind != "grow" {
+				// an edit that takes declarations out: the path must still be referred to
+				still := false
+				dst.Inspect(pkg.Syntax[i], func(n dst.Node) bool {
+					if id, ok := n.(*dst.Ident); ok && id.Path == in.FailPath {
+						still = true
+					}
+					return true
+				})
+				if !still {
+					continue
+				}
 			}
 			for _, is := range pf.Imports {
 				if p, _ := strconv.Unquote(is.Path.Value); p == in.FailPath && is.Name == nil {
@@ -125,10 +235,30 @@ func c20Check(c *Ctx, in c20Input) (key, what string) {
 		}
 	}
 	var serr error
-	if pm := safely(func() { serr = pkg.SaveWithResolver(rr) }); pm != "" {
+	api := "SaveWithResolver"
+	if in.API == "Save" && in.FailPath == "" && asked == 0 {
+		api = "Save"
+		if pm := safely(func() { serr = pkg.Save() }); pm != "" {
+			return "c20-panic", "Save panicked: " + pm
+		}
+	} else if pm := safely(func() { serr = pkg.SaveWithResolver(rr) }); pm != "" {
 		return "c20-panic", "SaveWithResolver panicked: " + pm
 	}
 	after := snapshotDir(root)
+	// what was exercised: the entry point, and the length of each edited file's print against the file it replaces
+	c20Stats["saved through "+api]++
+	for _, f := range in.Files {
+		if want, ok := expected[f.Name]; ok && f.Edit && failIdx < 0 {
+			switch {
+			case len(want) < len(before[f.Name]):
+				c20Stats["edited file: print shorter than the file on disk"]++
+			case len(want) == len(before[f.Name]):
+				c20Stats["edited file: print as long as the file on disk"]++
+			default:
+				c20Stats["edited file: print longer than the file on disk"]++
+			}
+		}
+	}
 	// nothing but the package's files
 	var extra []string
 	for p := range after {
@@ -138,16 +268,16 @@ func c20Check(c *Ctx, in c20Input) (key, what string) {
 	}
 	sort.Strings(extra)
 	if len(extra) > 0 {
-		return "c20-elsewhere", fmt.Sprintf("Save created files that were not loaded: %v", extra)
+		return "c20-elsewhere", fmt.Sprintf("%s created files that were not loaded: %v", api, extra)
 	}
 	for p := range before {
 		if _, ok := after[p]; !ok {
-			return "c20-elsewhere", "Save removed " + p
+			return "c20-elsewhere", api + " removed " + p
 		}
 	}
 	if failIdx < 0 {
 		if serr != nil {
-			return "c20-error", "Save failed: " + serr.Error()
+			return "c20-error", api + " failed: " + serr.Error()
 		}
 		for _, f := range in.Files {
 			want := expected[f.Name]
@@ -157,9 +287,15 @@ func c20Check(c *Ctx, in c20Input) (key, what string) {
 			if after[f.Name] != want {
 				what := "unedited gofmt-canonical file changed on disk"
 				if f.Edit {
-					what = "the saved bytes are not the import-managed print of the edited file"
+					what = fmt.Sprintf("the bytes %s left on disk (%d; %d before the save) are not the import-managed print of the edited file (%d bytes)", api, len(after[f.Name]), len(before[f.Name]), len(want))
 				}
 				return "c20-bytes", fmt.Sprintf("%s: %s\n%s", f.Name, what, firstDiff(want, after[f.Name]))
+			}
+		}
+		// what was written is a Go source file
+		for _, f := range in.Files {
+			if _, perr := parser.ParseFile(token.NewFileSet(), f.Name, after[f.Name], parser.ParseComments); perr != nil {
+				return "c20-unparseable", fmt.Sprintf("%s: the file %s left on disk does not parse: %v", f.Name, api, perr)
 			}
 		}
 		return "", ""
@@ -198,10 +334,20 @@ var c20Pool = []string{
 	"package pkg\n\nimport . \"errors\"\n\nvar ErrY = New(\"y\")\n",
 }
 
+// c20EditPool: more files for the edits that take declarations out
+var c20EditPool = []string{
+	// two declarations, each the only user of one import: removing the last one leaves "fmt" in use
+	"package pkg\n\nimport (\n\t\"fmt\"\n\t\"strings\"\n)\n\n// G greets.\nfunc G() { fmt.Println(\"g\") }\n\n// H is long.\nfunc H(s string) string {\n\ts = strings.TrimSpace(s)\n\ts = strings.Repeat(s, 3)\n\treturn strings.ToUpper(s)\n}\n",
+	// no imports at all, comments everywhere
+	"package pkg\n\n// K1 is one.\nconst K1 = 1\n\n// T is a type.\ntype T struct {\n\ta, b int // fields\n}\n\n// M is a method.\nfunc (t T) M() int {\n\treturn t.a + t.b + K1 // sum\n}\n\n// trailing comment of the file\n",
+	// a blank import stays whatever goes
+	"package pkg\n\nimport (\n\t_ \"embed\"\n\t\"os\"\n)\n\nvar Args = os.Args\n\nvar Env = os.Environ()\n",
+}
+
 var c20FailPaths = []string{"fmt", "os", "io", "bytes", "errors"}
 
 func c20Prop(c *Ctx) {
-	c.Res.Rule = "packages of 1-5 files drawn from a pool (imports, comments, //line directives before and after the package clause, files in sub-directories), each file edited or not; resolver failing for a package that exactly one file refers to, at every file index; non-trivial = distinct (file list, edits, failing path)"
+	c.Res.Rule = "packages of 1-5 files drawn from a pool (imports, comments, //line directives before and after the package clause, files in sub-directories), each file edited or not; resolver failing for a package that exactly one file refers to, at every file index; every pool file alone and packages of 1-4 files under edits that make the print longer (a new declaration), shorter (the last declaration removed, all declarations removed: imports become unused) and equally long (a declared name changed), saved through SaveWithResolver or Save (when no package name needs resolving), once or twice in a row: the directory holds exactly the separately made import-managed prints, each of which parses; non-trivial = distinct (file list, edits, failing path)"
 	for i := 0; i < c.N(60); i++ {
 		n := 1 + c.Rng.Intn(5)
 		perm := c.Rng.Perm(len(c20Pool))
@@ -226,6 +372,63 @@ func c20Prop(c *Ctx) {
 		}
 		if len(c.Res.Samples) < 2 && in.FailPath != "" {
 			c.Res.Samples = append(c.Res.Samples, in)
+		}
+	}
+	// edits that make the print shorter than, as long as and longer than the file on disk, through both
+	// public entry points, once and twice in a row: every pool file alone under every kind of edit ...
+	pool := append(append([]string{}, c20Pool...), c20EditPool...)
+	kinds := []string{"grow", "remove-decl", "remove-all", "rename-same"}
+	run := func(in c20Input, bucket string) {
+		c.Res.Evaluations++
+		b, _ := json.Marshal(in)
+		c.Res.seen(string(b))
+		c.Res.hist("c20", bucket)
+		if key, what := c20Check(c, in); key != "" {
+			c.Res.fail(key, what, in)
+		}
+	}
+	for pi, src := range pool {
+		for ki, kind := range kinds[1:] {
+			in := c20Input{Files: []c20File{{Name: "f0.go", Src: src, Edit: true, Kind: kind}}}
+			if (pi+ki)%2 == 0 {
+				in.API = "Save"
+			}
+			if c.Rng.Intn(3) == 0 {
+				in.Again = kinds[c.Rng.Intn(len(kinds))]
+			}
+			run(in, "one file, edit="+kind)
+		}
+	}
+	// ... and packages of several files, edited in different ways or not at all, saved once or twice
+	for i := 0; i < c.N(24); i++ {
+		n := 1 + c.Rng.Intn(4)
+		perm := c.Rng.Perm(len(pool))
+		var in c20Input
+		for j := 0; j < n; j++ {
+			name := fmt.Sprintf("f%d.go", j)
+			if c.Rng.Intn(4) == 0 {
+				name = fmt.Sprintf("sub/f%d.go", j)
+			}
+			f := c20File{Name: name, Src: pool[perm[j]], Edit: c.Rng.Intn(3) != 0}
+			if f.Edit {
+				f.Kind = kinds[c.Rng.Intn(len(kinds))]
+			}
+			in.Files = append(in.Files, f)
+		}
+		if c.Rng.Intn(2) == 0 {
+			in.API = "Save"
+		}
+		switch c.Rng.Intn(4) {
+		case 0:
+			in.Again = kinds[c.Rng.Intn(len(kinds))]
+		case 1:
+			in.FailPath = c20FailPaths[c.Rng.Intn(len(c20FailPaths))]
+		}
+		run(in, fmt.Sprintf("files=%d edit kinds, again=%v fail=%v", n, in.Again != "", in.FailPath != ""))
+	}
+	for k, n := range c20Stats {
+		for ; n > 0; n-- {
+			c.Res.hist("c20-saves", k)
 		}
 	}
 	// the recorded finding (same defect as C07/C08 duplicate-path-import): an unedited canonical file
